@@ -61,3 +61,19 @@ Proof.
   intros H1 H2. unfold step.
   rewrite (shaped_parse_nmea c q line1 f hex H1), (shaped_parse_nmea c q line2 f hex H2). reflexivity.
 Qed.
+
+(* ... and nothing in front of the sentence is skipped: a line whose first byte is neither a backslash (a TAG block)
+   nor a start delimiter is rejected in every state, which it leaves as it was — a byte order mark, a blank, a line
+   end or the tail of a torn line in front of a perfectly good sentence included *)
+Theorem leading_byte_rejected c q st b rest d :
+  b <> 92 -> b <> 33 -> b <> 36 -> step c q st (b :: rest) d = (st, Err ENmea).
+Proof.
+  intros H92 H33 H36. unfold step, parse_nmea_sentence, skip_tag_block.
+  destruct (N.eqb_spec b 92) as [E|_]; [contradiction|].
+  destruct (N.eqb_spec b 33) as [E|_]; [contradiction|].
+  destruct (N.eqb_spec b 36) as [E|_]; [contradiction|].
+  reflexivity.
+Qed.
+
+Theorem empty_line_rejected c q st d : step c q st [] d = (st, Err ENmea).
+Proof. reflexivity. Qed.
